@@ -740,7 +740,7 @@ type c45Outcome struct {
 	Consumer bool // the chan consumer saw the channel closed
 }
 
-var c45Watchdog = 20 * time.Second
+var c45Watchdog = 8 * time.Second
 
 // c45ProcessedCounts samples the processed-message counters of the stream's actors.
 func c45ProcessedCounts(h StreamHandle) ([]int, []bool) {
@@ -829,7 +829,7 @@ func c45Await(h StreamHandle, o *c45Outcome) {
 		case <-h.Done():
 			o.Done = true
 			return
-		case <-time.After(2 * time.Second):
+		case <-time.After(1500 * time.Millisecond):
 		}
 		c2, r2 := c45ProcessedCounts(h)
 		same := len(c1) > 0 && len(c1) == len(c2)
